@@ -107,7 +107,10 @@ def apply_real(ctx, op, cur, env, readers=None):
     out = ctx.newdir("c14o_")
     k = op["op"]
     if k == "colander":
-        tools.colander(cur, out, op["vars"], op["limit"])
+        if op.get("cli"):
+            tools.colander_cli(cur, out, op["vars"], op["limit"])        # the console script
+        else:
+            tools.colander(cur, out, op["vars"], op["limit"])
     elif k == "combine":
         other = env[op["with"]]
         a, b = (cur, other) if op.get("first", True) else (other, cur)
@@ -170,6 +173,8 @@ def run_seq(ctx, rep, spec, sib, ops, start=None, source="plotgen", reuse=False)
             with alarm(300), quiet(), pools.controlled(start=start):
                 out = apply_real(ctx, op, cur, env, readers)
             err = None
+        except SystemExit as e:
+            out, err = None, RuntimeError(f"console script exited ({e.code})")
         except Exception as e:
             out, err = None, e
         if refused is not None:
@@ -227,7 +232,7 @@ def gen_ops(rng, spec, sib, kinds):
                 cur_levels = lim + 1
             if nxt.startswith("combine-ancestor") and len(fields) > 1:
                 sel = fields[-1:]            # leave something for the ancestor to add back
-            ops.append({"op": "colander", "vars": sel, "limit": lim})
+            ops.append({"op": "colander", "vars": sel, "limit": lim, "cli": lim == 0 or rng.random() < 0.3})
             fields = list(fields) if sel == ["all"] else [v for v in sel if v in fields]
         elif k == "chef":
             cooked += 1
